@@ -78,8 +78,12 @@ def build(targets=None, timeout=1500):
             rc, o = sh("coq_makefile -f _CoqProject -o Makefile", cwd=COQ)
             if rc:
                 return BuildResult(False, o, "_CoqProject", "coq_makefile")
-        tg = " ".join(targets) if targets else ""
-        rc, o = sh("timeout %d make -j%d %s 2>&1" % (timeout, NCPU, tg), cwd=COQ, timeout=timeout + 30)
+        # build everything that builds (-k), then insist on the targets this check depends on:
+        # a file of another property that does not compile must not break this property's check
+        rc, o = sh("timeout %d make -k -j%d 2>&1" % (timeout, NCPU), cwd=COQ, timeout=timeout + 30)
+        if rc and targets:
+            rc, o2 = sh("timeout %d make -j%d %s 2>&1" % (timeout, NCPU, " ".join(targets)), cwd=COQ, timeout=timeout + 30)
+            o = o2 if rc else o
         if rc:
             m = re.findall(r'File "\./?([^"]+\.v)"', o)
             return BuildResult(False, o[-6000:], m[-1] if m else None, "make")
@@ -176,9 +180,7 @@ def run_cases(name, preamble, cases, chunk=400, timeout=900):
     """cases: list of Gallina terms of type `case`; preamble must define
     `check : case -> bool` (true = model agrees with what the implementation did).
     Returns (list of failing indices, log)."""
-    for f in os.listdir(CASES):
-        if f.startswith(name + "_"):
-            os.unlink(os.path.join(CASES, f))
+    name = "%s_p%d" % (name.split("_p")[0], os.getpid())   # concurrent runs must not share case files
     chunks = [cases[i:i + chunk] for i in range(0, len(cases), chunk)] or [[]]
     files = []
     for k, ch in enumerate(chunks):
@@ -205,8 +207,11 @@ def run_cases(name, preamble, cases, chunk=400, timeout=900):
                 continue
             bad.extend(k * chunk + int(x) for x in m.group(2).split(";") if x.strip())
     for f in os.listdir(CASES):
-        if f.startswith(name + "_") and not f.endswith(".v"):
-            os.unlink(os.path.join(CASES, f))
+        if f.startswith(name + "_") and not (log and f.endswith(".v")):
+            try:
+                os.unlink(os.path.join(CASES, f))
+            except OSError:
+                pass
     return bad, log
 
 
@@ -302,7 +307,7 @@ TRUSTED_BASE = [
 def proof_stage(run, pid, extra_targets=()):
     """Build + property file + forbidden grep.  Returns (ok, info dict).  On
     failure the caller goes to the search stage."""
-    b = build()
+    b = build(targets=["theories/Properties/%s.vo" % pid] + list(extra_targets))
     info = {"build_ok": b.ok}
     if not b.ok:
         info.update({"failed": b.failed_file, "stage": b.stage, "log": b.log[-3000:]})
